@@ -88,12 +88,16 @@ PROPS["C18"] = dict(
          "70000,+random} and small-message batches totalling >64 KiB through on_app_message and frame_batch: a 32-byte marker must not "
          "appear in the bytes sent and whatever was encoded without error must decode to the same frames; (2) heartbeats (on_tick) on an "
          "encrypted link must be decodable; (3) single mutations (bit flips: every bit of the first 3 records sampled 1/5 in quick, all "
-         "in thorough; drop/duplicate/swap every record; cut at byte positions; junk injection) and sampled double mutations: the "
+         "in thorough; drop/duplicate/swap every record; cut at byte positions; junk injection; forged well-framed records of 0/1/15/16/17/48 bytes in front of every record) and sampled double mutations: the "
          "receiver may deliver only a prefix of the original messages and must end Closed unless the mutation is a pure truncation; "
-         "(4) repeated sessions with identical static keys must not produce identical first ciphertext. distinct = (mech, direction, case).",
+         "(4) repeated sessions with identical static keys must not produce identical first ciphertext. (stack) real PUSH->PULL over tcp and "
+         "DEALER->ROUTER over ipc under CURVE and NOISE_XX: 300 x 1 KiB bursts (which the session coalesces into batches far beyond one 64 KiB "
+         "record), mixed bursts with a 70 000-byte message, single messages of 65 000..200 000 bytes, 4-frame messages of 50 KB: every message "
+         "send() accepted must arrive exactly once, in order, byte-exact. distinct = (mech, direction, case).",
     assumptions=["cryptographic strength itself is out of scope; only observable consequences are checked",
                  "a pure truncation is indistinguishable from a slow link at engine level, so only 'prefix delivered' is required there"],
     shards=lambda tier, seed: sharded("c18", 16, _n(tier, 300, 1800))
+    + sharded("c18", 4, 600, extra=["--only", "stack"], name="c18-stack")
     + (sharded("c18", 4, 2400, flavour="asan", extra=["--tier", "quick"], name="c18-asan") if tier == "thorough" else []),
     min_evaluations={"quick": 1000, "thorough": 5000},
 )
